@@ -102,6 +102,9 @@ def cnt (a : Array Bool) : Nat := a.count true
 /-- 1 if the flag `i` exists and is not set -/
 def pend (a : Array Bool) (i : Nat) : Nat := if h : i < a.size then (if a[i] = false then 1 else 0) else 0
 
+@[simp] theorem cnt_replicate_false (n : Nat) : cnt (Array.replicate n false) = 0 := by
+  unfold cnt; simp [Array.count_replicate]
+
 theorem cnt_le (a : Array Bool) : cnt a ≤ a.size := Array.count_le_size
 
 theorem pend_le (a : Array Bool) (i : Nat) : cnt a + pend a i ≤ a.size := by
@@ -186,8 +189,17 @@ theorem noFuel_fail : NoFuel .fail := by intro s h; cases h
 @[spec] theorem isOnBoundary_fspec (t : TView) (v : Nat) :
     ⦃⌜True⌝⦄ t.isOnBoundary v ⦃post⟨fun _ => ⌜True⌝, fun e => ⌜NoFuel e⌝⟩⦄ := R.spec_of _ _ (fun _ _ => trivial) (nf_isOnBoundary _ _)
 @[spec] theorem onNewVertex_fspec (faces : Array Nat) (s : SeqOut) (v c : Nat) :
-    ⦃⌜True⌝⦄ onNewVertex faces s v c ⦃post⟨fun _ => ⌜True⌝, fun e => ⌜NoFuel e⌝⟩⦄ :=
-  R.spec_of _ _ (fun _ _ => trivial) (nf_onNewVertex _ _ _ _)
+    ⦃⌜True⌝⦄ onNewVertex faces s v c
+    ⦃post⟨fun r => ⌜r.d2c.size = s.d2c.size + 1 ∧ r.pointIds.size = s.pointIds.size + 1⌝, fun e => ⌜NoFuel e⌝⟩⦄ :=
+  R.spec_of _ _ (fun r h => by
+    unfold onNewVertex at h
+    simp only [bind, Except.bind] at h
+    split at h
+    · cases h
+    · split at h
+      · cases h
+      · simp only [pure, Except.pure, Except.ok.injEq] at h
+        rw [← h]; simp) (nf_onNewVertex _ _ _ _)
 
 theorem fuel_contra (fv vv X Y : Array Bool) (F fuel : Nat) (hX : X.size = fv.size) (hY : Y.size = vv.size)
     (hfuel : fv.size + vv.size + 1 ≤ fuel) (hk : cnt fv + cnt vv + fuel + 1 ≤ cnt X + cnt Y + pend X F) : False := by
@@ -199,10 +211,14 @@ set_option maxHeartbeats 1000000 in
 theorem dfInner_fuel (t : TView) (faces : Array Nat) (fuel : Nat) (fv vv : Array Bool) (out : SeqOut)
     (stack : Array Nat) (cornerId faceId : Nat) (hfuel : fv.size + vv.size + 1 ≤ fuel) (hface : pend fv faceId = 1) :
     ⦃⌜True⌝⦄ dfInner t faces fuel fv vv out stack cornerId faceId
-    ⦃post⟨fun r => ⌜r.1.size = fv.size ∧ r.2.1.size = vv.size ∧ cnt fv + 1 ≤ cnt r.1 ∧ r.2.2.2.size ≤ stack.size + 1⌝,
+    ⦃post⟨fun r => ⌜r.1.size = fv.size ∧ r.2.1.size = vv.size ∧ cnt fv + 1 ≤ cnt r.1 ∧ r.2.2.2.size ≤ stack.size + 1 ∧
+            r.2.2.1.d2c.size + cnt vv = out.d2c.size + cnt r.2.1 ∧
+            r.2.2.1.pointIds.size + cnt vv = out.pointIds.size + cnt r.2.1⌝,
           fun e => ⌜NoFuel e⌝⟩⦄ := by
   mvcgen [dfInner]
   case inv1 => exact post⟨fun ⟨xs, b⟩ => ⌜b.1.size = fv.size ∧ b.2.1.size = vv.size ∧
+      b.2.2.1.d2c.size + cnt vv = out.d2c.size + cnt b.2.1 ∧
+      b.2.2.1.pointIds.size + cnt vv = out.pointIds.size + cnt b.2.1 ∧
       (xs.suffix ≠ [] → b.2.2.2.2.2.2 = false) ∧
       (b.2.2.2.2.2.2 = false → b.2.2.2.1 = stack ∧
         cnt fv + cnt vv + xs.prefix.length + 1 ≤ cnt b.1 + cnt b.2.1 + pend b.1 b.2.2.2.2.2.1 ∧
@@ -212,7 +228,7 @@ theorem dfInner_fuel (t : TView) (faces : Array Nat) (fuel : Nat) (fv vv : Array
   all_goals (try exact noFuel_fail)
   all_goals (try (simp_all (config := { zetaDelta := true }); grind))
   all_goals (try (simp_all (config := { zetaDelta := true }); done))
-  all_goals (try (simp_all (config := { zetaDelta := true }); obtain ⟨hX, hY, _, hk, _⟩ := ‹_ ∧ _ ∧ _ ∧ _ ∧ _›; exact (fuel_contra _ _ _ _ _ _ hX hY hfuel hk).elim))
+  all_goals (try (simp_all (config := { zetaDelta := true }); obtain ⟨hX, hY, _, _, _, hk, _⟩ := ‹_ ∧ _ ∧ _ ∧ _ ∧ _ ∧ _ ∧ _›; exact (fuel_contra _ _ _ _ _ _ hX hY hfuel hk).elim))
 
 theorem stack_contra (fv X : Array Bool) (n m fuel : Nat) (hX : X.size = fv.size)
     (hfuel : 2 * fv.size + n + 1 ≤ fuel) (hk : m + 2 * cnt fv + fuel ≤ n + 2 * cnt X) : False := by
@@ -224,16 +240,20 @@ attribute [local spec] dfInner_fuel in
 theorem dfStack_fuel (t : TView) (faces : Array Nat) (fuel : Nat) (fv vv : Array Bool) (out : SeqOut)
     (stack : Array Nat) (hfuel : fv.size + vv.size + 1 ≤ fuel) (hfuel2 : 2 * fv.size + stack.size + 1 ≤ fuel) :
     ⦃⌜True⌝⦄ dfStack t faces fuel fv vv out stack
-    ⦃post⟨fun r => ⌜r.1.size = fv.size ∧ r.2.1.size = vv.size⌝, fun e => ⌜NoFuel e⌝⟩⦄ := by
+    ⦃post⟨fun r => ⌜r.1.size = fv.size ∧ r.2.1.size = vv.size ∧
+            r.2.2.d2c.size + cnt vv = out.d2c.size + cnt r.2.1 ∧
+            r.2.2.pointIds.size + cnt vv = out.pointIds.size + cnt r.2.1⌝, fun e => ⌜NoFuel e⌝⟩⦄ := by
   mvcgen [dfStack]
   case inv1 => exact post⟨fun ⟨xs, b⟩ => ⌜b.1.size = fv.size ∧ b.2.1.size = vv.size ∧
+      b.2.2.1.d2c.size + cnt vv = out.d2c.size + cnt b.2.1 ∧
+      b.2.2.1.pointIds.size + cnt vv = out.pointIds.size + cnt b.2.1 ∧
       (xs.suffix ≠ [] → b.2.2.2.2 = false) ∧
       (b.2.2.2.2 = false → b.2.2.2.1.size + 2 * cnt fv + xs.prefix.length ≤ stack.size + 2 * cnt b.1)⌝,
       fun e => ⌜NoFuel e⌝⟩
   all_goals (try exact noFuel_fail)
   all_goals (try (simp_all (config := { zetaDelta := true }); done))
   all_goals (try (simp_all (config := { zetaDelta := true }); grind))
-  all_goals (try (simp_all (config := { zetaDelta := true }); obtain ⟨hX, _, hk⟩ := ‹_ ∧ _ ∧ _›; exact (stack_contra _ _ _ _ _ hX hfuel2 hk).elim))
+  all_goals (try (simp_all (config := { zetaDelta := true }); obtain ⟨hX, _, _, _, hk⟩ := ‹_ ∧ _ ∧ _ ∧ _ ∧ _›; exact (stack_contra _ _ _ _ _ hX hfuel2 hk).elim))
 
 theorem nf_visitVertex (faces : Array Nat) (vv : Array Bool) (out : SeqOut) (v c : Nat) :
     NF (visitVertex faces vv out v c) := by
@@ -241,40 +261,61 @@ theorem nf_visitVertex (faces : Array Nat) (vv : Array Bool) (out : SeqOut) (v c
   refine NF.bind (nf_rdB _ _ _) (fun b => NF.ite ?_ (NF.pure _))
   exact NF.bind (nf_wrB _ _ _ _) (fun _ => NF.bind (nf_onNewVertex _ _ _ _) (fun _ => NF.pure _))
 
-theorem visitVertex_size {faces : Array Nat} {vv : Array Bool} {out : SeqOut} {v c : Nat} {r : Array Bool × SeqOut}
-    (h : visitVertex faces vv out v c = .ok r) : r.1.size = vv.size := by
+theorem visitVertex_cnt {faces : Array Nat} {vv : Array Bool} {out : SeqOut} {v c : Nat} {r : Array Bool × SeqOut}
+    (h : visitVertex faces vv out v c = .ok r) :
+    r.1.size = vv.size ∧ r.2.d2c.size + cnt vv = out.d2c.size + cnt r.1 ∧
+      r.2.pointIds.size + cnt vv = out.pointIds.size + cnt r.1 := by
   unfold visitVertex at h
   simp only [bind, Except.bind] at h
   split at h
   · cases h
-  · split at h
-    · split at h
+  · rename_i b hb
+    split at h
+    · rename_i hnb
+      have hbf : b = false := by simpa using hnb
+      split at h
       · cases h
       · rename_i vv' hvv
         split at h
         · cases h
-        · simp only [pure, Except.pure, Except.ok.injEq] at h
+        · rename_i out' hout
+          simp only [pure, Except.pure, Except.ok.injEq] at h
           rw [← h]
-          unfold wrB at hvv
-          split at hvv
-          · simp only [pure, Except.pure, Except.ok.injEq] at hvv; rw [← hvv]; simp
-          · cases hvv
+          obtain ⟨h1, h2⟩ := wrB_true_ok hvv
+          obtain ⟨hi, hv⟩ := rdB_ok' hb
+          have hp : pend vv v = 1 := pend_of_false ⟨hi, by rw [hv, hbf]⟩
+          have ho : out'.d2c.size = out.d2c.size + 1 ∧ out'.pointIds.size = out.pointIds.size + 1 := by
+            unfold onNewVertex at hout
+            simp only [bind, Except.bind] at hout
+            split at hout
+            · cases hout
+            · split at hout
+              · cases hout
+              · simp only [pure, Except.pure, Except.ok.injEq] at hout
+                rw [← hout]; simp
+          refine ⟨h1, ?_, ?_⟩ <;> simp only [] <;> omega
     · simp only [pure, Except.pure, Except.ok.injEq] at h
       rw [← h]
+      exact ⟨rfl, rfl, rfl⟩
 
 @[spec] theorem visitVertex_fspec (faces : Array Nat) (vv : Array Bool) (out : SeqOut) (v c : Nat) :
-    ⦃⌜True⌝⦄ visitVertex faces vv out v c ⦃post⟨fun r => ⌜r.1.size = vv.size⌝, fun e => ⌜NoFuel e⌝⟩⦄ :=
-  R.spec_of _ _ (fun _ h => visitVertex_size h) (nf_visitVertex _ _ _ _ _)
+    ⦃⌜True⌝⦄ visitVertex faces vv out v c
+    ⦃post⟨fun r => ⌜r.1.size = vv.size ∧ r.2.d2c.size + cnt vv = out.d2c.size + cnt r.1 ∧
+        r.2.pointIds.size + cnt vv = out.pointIds.size + cnt r.1⌝, fun e => ⌜NoFuel e⌝⟩⦄ :=
+  R.spec_of _ _ (fun _ h => visitVertex_cnt h) (nf_visitVertex _ _ _ _ _)
 
 set_option maxHeartbeats 1000000 in
 attribute [local spec] dfStack_fuel in
 theorem depthFirst_fuel (t : TView) (faces : Array Nat) (v2dSize : Nat) :
-    ⦃⌜True⌝⦄ depthFirst t faces v2dSize ⦃post⟨fun _ => ⌜True⌝, fun e => ⌜NoFuel e⌝⟩⦄ := by
+    ⦃⌜True⌝⦄ depthFirst t faces v2dSize
+    ⦃post⟨fun r => ⌜r.pointIds.size ≤ t.numVertices ∧ r.d2c.size = r.pointIds.size⌝, fun e => ⌜NoFuel e⌝⟩⦄ := by
   mvcgen [depthFirst]
-  case inv1 => exact post⟨fun ⟨xs, b⟩ => ⌜b.1.size = t.numFaces ∧ b.2.1.size = t.numVertices⌝, fun e => ⌜NoFuel e⌝⟩
+  case inv1 => exact post⟨fun ⟨xs, b⟩ => ⌜b.1.size = t.numFaces ∧ b.2.1.size = t.numVertices ∧
+      b.2.2.d2c.size = cnt b.2.1 ∧ b.2.2.pointIds.size = cnt b.2.1⌝, fun e => ⌜NoFuel e⌝⟩
   all_goals (try exact noFuel_fail)
   all_goals (try (simp_all (config := { zetaDelta := true }); done))
   all_goals (try (simp_all (config := { zetaDelta := true }); omega))
+  all_goals (try (simp_all (config := { zetaDelta := true }); grind [cnt_le]))
 
 /-- **the depth-first traverser never runs out of fuel** (any corner table, any face array) -/
 theorem depthFirst_noFuel (t : TView) (faces : Array Nat) (v2dSize : Nat) (s : String) :
@@ -355,10 +396,14 @@ theorem mpInner_fuel (t : TView) (faces : Array Nat) (fuel : Nat) (fv vv : Array
     (hface : pend fv (cornerId / 3) = 1) :
     ⦃⌜True⌝⦄ mpInner t faces fuel fv vv out degree stacks cornerId
     ⦃post⟨fun r => ⌜r.1.size = fv.size ∧ r.2.1.size = vv.size ∧ cnt fv + 1 ≤ cnt r.1 ∧
-            tot r.2.2.2.2 + 2 * cnt fv ≤ tot stacks + 2 * cnt r.1⌝,
+            tot r.2.2.2.2 + 2 * cnt fv ≤ tot stacks + 2 * cnt r.1 ∧
+            r.2.2.1.d2c.size + cnt vv = out.d2c.size + cnt r.2.1 ∧
+            r.2.2.1.pointIds.size + cnt vv = out.pointIds.size + cnt r.2.1⌝,
           fun e => ⌜NoFuel e⌝⟩⦄ := by
   mvcgen [mpInner]
   case inv1 => exact post⟨fun ⟨xs, b⟩ => ⌜b.1.size = fv.size ∧ b.2.1.size = vv.size ∧
+      b.2.2.1.d2c.size + cnt vv = out.d2c.size + cnt b.2.1 ∧
+      b.2.2.1.pointIds.size + cnt vv = out.pointIds.size + cnt b.2.1 ∧
       (xs.suffix ≠ [] → b.2.2.2.2.2.2 = false) ∧
       (b.2.2.2.2.2.2 = false → pend b.1 (b.2.2.2.2.2.1 / 3) = 1 ∧ cnt fv + xs.prefix.length ≤ cnt b.1 ∧
         tot b.2.2.2.2.1 + 2 * cnt fv ≤ tot stacks + 2 * cnt b.1) ∧
@@ -368,7 +413,7 @@ theorem mpInner_fuel (t : TView) (faces : Array Nat) (fuel : Nat) (fv vv : Array
   all_goals (try (simp_all (config := { zetaDelta := true }); done))
   all_goals (try (simp_all (config := { zetaDelta := true }); grind [pend_faceOfCorner]))
   all_goals (try (simp (config := { zetaDelta := true }) only [Bool.not_eq_true', Bool.not_eq_eq_eq_not, Bool.not_true, List.length_append, List.length_cons, List.length_nil, ne_eq, reduceCtorEq, not_false_eq_true, forall_const, tot_add] at *; grind [pend_faceOfCorner]))
-  all_goals (try (simp_all (config := { zetaDelta := true }); obtain ⟨hX, _, _, hk, _⟩ := ‹_ ∧ _ ∧ _ ∧ _ ∧ _›; exact (inner_contra _ _ _ hX hfuel hk).elim))
+  all_goals (try (simp_all (config := { zetaDelta := true }); obtain ⟨hX, _, _, _, _, hk, _⟩ := ‹_ ∧ _ ∧ _ ∧ _ ∧ _ ∧ _ ∧ _›; exact (inner_contra _ _ _ hX hfuel hk).elim))
 
 theorem mpstack_contra (fv X : Array Bool) (n m fuel : Nat) (hX : X.size = fv.size)
     (hfuel : n + 2 * fv.size + 1 ≤ fuel + 2 * cnt fv) (hk : m + 2 * cnt fv + fuel ≤ n + 2 * cnt X) : False := by
@@ -382,10 +427,14 @@ theorem mpStack_fuel (t : TView) (faces : Array Nat) (fuel : Nat) (fv vv : Array
     (hfuel2 : tot stacks + 2 * fv.size + 1 ≤ fuel + 2 * cnt fv) :
     ⦃⌜True⌝⦄ mpStack t faces fuel fv vv out degree stacks
     ⦃post⟨fun r => ⌜r.1.size = fv.size ∧ r.2.1.size = vv.size ∧
-            tot r.2.2.2.2 + 2 * cnt fv ≤ tot stacks + 2 * cnt r.1⌝,
+            tot r.2.2.2.2 + 2 * cnt fv ≤ tot stacks + 2 * cnt r.1 ∧
+            r.2.2.1.d2c.size + cnt vv = out.d2c.size + cnt r.2.1 ∧
+            r.2.2.1.pointIds.size + cnt vv = out.pointIds.size + cnt r.2.1⌝,
           fun e => ⌜NoFuel e⌝⟩⦄ := by
   mvcgen [mpStack]
   case inv1 => exact post⟨fun ⟨xs, b⟩ => ⌜b.1.size = fv.size ∧ b.2.1.size = vv.size ∧
+      b.2.2.1.d2c.size + cnt vv = out.d2c.size + cnt b.2.1 ∧
+      b.2.2.1.pointIds.size + cnt vv = out.pointIds.size + cnt b.2.1 ∧
       (xs.suffix ≠ [] → b.2.2.2.2.2 = false) ∧
       (b.2.2.2.2.2 = false → tot b.2.2.2.2.1 + 2 * cnt fv + xs.prefix.length ≤ tot stacks + 2 * cnt b.1) ∧
       (b.2.2.2.2.2 = true → tot b.2.2.2.2.1 + 2 * cnt fv ≤ tot stacks + 2 * cnt b.1)⌝,
@@ -394,14 +443,16 @@ theorem mpStack_fuel (t : TView) (faces : Array Nat) (fuel : Nat) (fv vv : Array
   all_goals (try (simp_all (config := { zetaDelta := true }); done))
   all_goals (try (simp_all (config := { zetaDelta := true }); grind [tot_pop, tot_pop_le, pend_faceOfCorner]))
   all_goals (try (simp (config := { zetaDelta := true }) only [Bool.not_eq_true', Bool.not_eq_eq_eq_not, Bool.not_true, List.length_append, List.length_cons, List.length_nil, ne_eq, reduceCtorEq, not_false_eq_true, forall_const, tot_add] at *; grind [tot_pop, tot_pop_le, pend_faceOfCorner]))
-  all_goals (try (simp_all (config := { zetaDelta := true }); obtain ⟨hX, _, hk⟩ := ‹_ ∧ _ ∧ _›; exact (mpstack_contra _ _ _ _ _ hX hfuel2 hk).elim))
+  all_goals (try (simp_all (config := { zetaDelta := true }); obtain ⟨hX, _, _, _, hk⟩ := ‹_ ∧ _ ∧ _ ∧ _ ∧ _›; exact (mpstack_contra _ _ _ _ _ hX hfuel2 hk).elim))
 
 set_option maxHeartbeats 2000000 in
 attribute [local spec] mpStack_fuel in
 theorem maxPredictionDegree_fuel (t : TView) (faces : Array Nat) (v2dSize : Nat) :
-    ⦃⌜True⌝⦄ maxPredictionDegree t faces v2dSize ⦃post⟨fun _ => ⌜True⌝, fun e => ⌜NoFuel e⌝⟩⦄ := by
+    ⦃⌜True⌝⦄ maxPredictionDegree t faces v2dSize
+    ⦃post⟨fun r => ⌜r.pointIds.size ≤ t.numVertices ∧ r.d2c.size = r.pointIds.size⌝, fun e => ⌜NoFuel e⌝⟩⦄ := by
   mvcgen [maxPredictionDegree]
   case inv1 => exact post⟨fun ⟨xs, b⟩ => ⌜b.1.size = t.numFaces ∧ b.2.1.size = t.numVertices ∧
+      b.2.2.1.d2c.size = cnt b.2.1 ∧ b.2.2.1.pointIds.size = cnt b.2.1 ∧
       (tot b.2.2.2.2 ≤ xs.prefix.length + 2 * cnt b.1) ∧ (xs.prefix.length ≤ t.numFaces)⌝, fun e => ⌜NoFuel e⌝⟩
   all_goals (try exact noFuel_fail)
   all_goals (try (simp_all (config := { zetaDelta := true }); done))
@@ -409,10 +460,31 @@ theorem maxPredictionDegree_fuel (t : TView) (faces : Array Nat) (v2dSize : Nat)
   all_goals (try (have hl := congrArg List.length ‹[:_].toList = _›; simp at hl; simp_all (config := { zetaDelta := true }) [tot]; omega))
   all_goals (try (have hl := congrArg List.length ‹[:_].toList = _›; simp at hl; simp_all (config := { zetaDelta := true }) [tot]; grind))
   all_goals (try (simp_all (config := { zetaDelta := true }) [tot]; done))
+  all_goals (try (have hl := congrArg List.length ‹[:_].toList = _›; simp at hl; simp_all (config := { zetaDelta := true }) [tot]; grind [cnt_le]))
+  all_goals (try (simp_all (config := { zetaDelta := true }) [tot]; grind [cnt_le]))
 
 /-- **the max-prediction-degree traverser never runs out of fuel** (any corner table, any face array) -/
 theorem maxPredictionDegree_noFuel (t : TView) (faces : Array Nat) (v2dSize : Nat) (s : String) :
     maxPredictionDegree t faces v2dSize ≠ .error (.fuel s) :=
   fun h => R.nf_of_spec (maxPredictionDegree_fuel t faces v2dSize) _ h s rfl
+
+/-! ### length of the traversal sequence -/
+
+theorem R.ok_of_spec {α : Type} {prog : R α} {Q : α → Prop}
+    (h : ⦃⌜True⌝⦄ prog ⦃post⟨fun r => ⌜Q r⌝, fun e => ⌜NoFuel e⌝⟩⦄) (a : α) (hp : prog = .ok a) : Q a := by
+  subst hp
+  simp only [Triple, WP.wp] at h
+  exact h trivial
+
+/-- a vertex is entered into the sequence when it is marked visited and only then: the sequence is never longer
+    than the vertex table of the traversed corner table (`num_vertices()` values are reserved for it) -/
+theorem depthFirst_size {t : TView} {faces : Array Nat} {v2dSize : Nat} {r : SeqOut}
+    (h : depthFirst t faces v2dSize = .ok r) : r.pointIds.size ≤ t.numVertices ∧ r.d2c.size = r.pointIds.size :=
+  R.ok_of_spec (depthFirst_fuel t faces v2dSize) r h
+
+theorem maxPredictionDegree_size {t : TView} {faces : Array Nat} {v2dSize : Nat} {r : SeqOut}
+    (h : maxPredictionDegree t faces v2dSize = .ok r) :
+    r.pointIds.size ≤ t.numVertices ∧ r.d2c.size = r.pointIds.size :=
+  R.ok_of_spec (maxPredictionDegree_fuel t faces v2dSize) r h
 
 end Draco.Eb
